@@ -238,6 +238,16 @@ def is_json_value(v):
     return False
 
 
+def wire_header(tok):
+    """the JSON object in the first segment of a compact token, parsed here (not by joserfc)"""
+    try:
+        seg = (tok.decode("ascii") if isinstance(tok, bytes) else tok).split(".")[0]
+        v = json.loads(base64.urlsafe_b64decode(seg + "=" * (-len(seg) % 4)))
+    except Exception:  # noqa
+        return None
+    return v if isinstance(v, dict) else None
+
+
 def b64u(b):
     return base64.urlsafe_b64encode(b).rstrip(b"=")
 
@@ -393,7 +403,8 @@ class World:
         self.KeySet, self.JWERegistry, self.JWSRegistry = KeySet, JWERegistry, JWSRegistry
 
         def oct_(n, kid):
-            return OctKey.import_key(bytes(rng.randrange(256) for _ in range(n)), {"kid": kid})
+            # printable ASCII so that the same secret can be given as Key, bytes or str
+            return OctKey.import_key(bytes(rng.randrange(33, 127) for _ in range(n)), {"kid": kid})
         self.keys = {
             "oct16": [oct_(16, "o16-a"), oct_(16, "o16-b")],
             "oct32": [oct_(32, "o32-a"), oct_(32, "o32-b")],
@@ -437,7 +448,35 @@ class World:
         if form == "callable-keyset":
             s = self.KeySet(list(ks))
             return (lambda obj: s), [k.kid for k in ks]
+        if form in ("bytes", "str"):            # deprecated but supported: the raw secret of an oct key
+            raw = ks[0].raw_value
+            return (raw if form == "bytes" else raw.decode("ascii")), []
         raise ValueError(form)
+
+    def decode_key(self, fam, dform, signer):
+        """the verifier's / recipient's key in the given form, holding the key that was used"""
+        ks = self.keys[fam]
+        if dform == "key":
+            return signer
+        if dform == "callable":
+            return lambda obj: signer
+        if dform in ("keyset1", "callable-keyset1"):
+            s = self.KeySet([signer])
+        elif dform in ("keyset", "callable-keyset"):
+            s = self.KeySet(list(ks))
+        elif dform in ("bytes", "str"):
+            raw = signer.raw_value
+            return raw if dform == "bytes" else raw.decode("ascii")
+        else:
+            raise ValueError(dform)
+        return (lambda obj: s) if dform.startswith("callable") else s
+
+    def forms(self, fam):
+        e = ["key", "keyset", "callable", "callable-keyset"]
+        d = ["key", "keyset1", "keyset", "callable", "callable-keyset", "callable-keyset1"]
+        if fam.startswith("oct") or fam == "pw":
+            e, d = e + ["bytes", "str"], d + ["bytes", "str"]
+        return e, d
 
 
 REG_EXTRAS = [("cty", "JWT"), ("cty", "example;part=\"1/2\""), ("x5t", "dGh1bWI"), ("jku", "https://example.com/jwks"),
@@ -779,7 +818,7 @@ def run(ctx):
     rng = ctx.rng
     W = World(rng)
     intern_pool([k.kid for ks in W.keys.values() for k in ks] + list(_strings_of([t[2] for t in W.transports])) +
-                ["hooked", "f:1.5", "obj:1", "obj:0", "obj:2"])
+                ["hooked", "f:1.5", "obj:1", "obj:0", "obj:2", "not-a-kid-of-the-set", "n", "f"])
 
     cases, meta = [], []
     dist = {"encode_ok": 0, "encode_err": 0, "decode_ok": 0, "decode_err": 0, "convert": 0, "numericdate": 0,
@@ -787,7 +826,8 @@ def run(ctx):
             "per_key_form": {}, "explicit_typ": 0, "keyset_kid_written": 0, "alg_added_members": 0,
             "datetime_claims": 0, "contract_points_json": 0, "contract_points_transport": 0,
             "per_encoder_cls": {}, "per_decoder_cls": {}, "per_option_mode": {}, "positional_calls": 0,
-            "decoder_made_non_object": 0, "foreign_object_claims": 0}
+            "decoder_made_non_object": 0, "foreign_object_claims": 0,
+            "per_decode_key_form": {}, "keyset_no_matching_kid": 0, "key_form_pairs": 0}
 
     def add(term, m):
         cases.append(share(term))
@@ -839,8 +879,20 @@ def run(ctx):
                 loads_term = "None"
         else:
             tr_term, loads_term = "None", "None"
-        add("CDec %s %s %s %s %s %s" % (c_blob(tok), opts.targs(), c_oN(dec_id), tr_term, loads_term, c_res(d, tok_term)),
+        wire = wire_header(tok)
+        try:
+            wire_term = "None" if wire is None else "(Some %s)" % c_hdr(wire)
+        except TypeError:
+            wire_term = "None"
+        add("CDec %s %s %s %s %s %s %s" % (c_blob(tok), opts.targs(), c_oN(dec_id), tr_term, loads_term, c_res(d, tok_term), wire_term),
             ("decode-" + what, tname, "decoder_cls=%s" % dec_id, "mode=%s" % opts.mode))
+        # ---- direct: the returned header is the header that is in the token, always
+        if d[0] == "ok" and not (isinstance(wire, dict) and isinstance(d[1].header, dict) and
+                                 list(d[1].header.keys()) == list(wire.keys()) and json_equal_hdr(d[1].header, wire)):
+            extra = {k: v for k, v in d[1].header.items() if not isinstance(wire, dict) or k not in wire} if isinstance(d[1].header, dict) else None
+            ctx.violation({"kind": "decoded-header-not-wire-header", "transport_kind": kind},
+                          "jwt.decode (%s, %s) returned the header %r but the token's protected header is %r (members not in the token: %r)" % (
+                              tname, what, d[1].header, wire, extra), rp)
         # ---- direct oracle
         if len(dec_calls) != 1:
             ctx.violation({"kind": "correspondence", "fn": "decode"}, "jwt.decode called the transport %d times" % len(dec_calls),
@@ -879,7 +931,7 @@ def run(ctx):
         return d, drec, own
 
     # ---------------------------------------------------------------- encode / decode round trips
-    def one_roundtrip(tr_, form, header, strict, claims, token_as_bytes, enc, dec, mode, positional, header_valid=True):
+    def one_roundtrip(tr_, form, header, strict, claims, token_as_bytes, enc, dec, mode, positional, header_valid=True, dform=None):
         tname, kind, base, fam, added = tr_
         enc_id, enc_cls = enc
         key, kids = W.key_form(fam, form)
@@ -966,13 +1018,45 @@ def run(ctx):
         # ---- direct: claims object after the call (datetime exp/nbf/iat replaced in place, nothing else)
         if applies and not (claims.keys() == exp_claims.keys() and all(json_equal(claims[k], exp_claims[k]) for k in claims)):
             ctx.violation({"kind": "claims-after"}, "caller's claims after encode %r, expected %r" % (claims, exp_claims), rp)
-        # ---- decode (same optional arguments, the chosen decoder_cls)
+        # ---- decode (same optional arguments, the chosen decoder_cls) with the key in the form dform
         value = tok.encode("ascii") if token_as_bytes else tok
-        d, drec, own = checked_decode(tok, key, opts, dec, tname, "roundtrip", rp=dict(rp, token=tok), value=value)
+        wire = wire_header(tok) or {}
+        ks = W.keys[fam]
+        if form in ("bytes", "str"):
+            signer = ks[0]
+        elif "keyset" in form:
+            signer = next((k for k in ks if k.kid == wire.get("kid")), ks[0])
+        else:
+            signer = ks[0]
+        if dform is None or dform == form:
+            dform_, dkey = form, key
+        else:
+            dform_, dkey = dform, W.decode_key(fam, dform, signer)
+        bump("per_decode_key_form", dform_)
+        rp = dict(rp, decode_key_form=dform_)
+        # what the key form and the token's kid imply (deterministic on the unchanged tree)
+        wk = wire.get("kid")
+        if dform_ in ("keyset1", "callable-keyset1") or ("keyset" in dform_ and len(ks) == 1):
+            key_found = ("kid" not in wire) or wk == signer.kid
+        elif "keyset" in dform_:
+            key_found = "kid" in wire and isinstance(wk, str) and wk in [k.kid for k in ks]
+        else:
+            key_found = True
+        d, drec, own = checked_decode(tok, dkey, opts, dec, tname, "roundtrip", rp=dict(rp, token=tok), value=value)
+        if not key_found:
+            dist["keyset_no_matching_kid"] += 1
+            from joserfc.errors import InvalidKeyIdError
+            if not (d[0] == "err" and isinstance(d[1], InvalidKeyIdError)):
+                ctx.violation({"kind": "keyset-without-matching-kid", "transport_kind": kind},
+                              "jwt.decode with a key set (%s, %d keys) of a token whose header %r names none of its keys %s instead of raising "
+                              "InvalidKeyIdError (%s)" % (dform_, len(ks), wire, "returned header %r" % (d[1].header,) if d[0] == "ok" else "raised %r" % (d[1],), tname),
+                              dict(rp, token=tok))
+            return
         if drec is None or drec["out"][0] != "ok":
             dist["decode_err"] += 1
             ctx.violation({"kind": "roundtrip-decode-raises", "transport_kind": kind},
-                          "jwt.decode(jwt.encode(h, c, k), k) raised %r; h=%r c=%r (%s, %s, %s)" % (d[1] if d[0] == "err" else None, h0, c0, tname, form, mode),
+                          "jwt.decode(jwt.encode(h, c, k), k) raised %r; h=%r c=%r (%s, encode key form %s, decode key form %s, %s)" % (
+                              d[1] if d[0] == "err" else None, h0, c0, tname, form, dform_, mode),
                           dict(rp, token=tok))
             return
         if d[0] != "ok":
@@ -994,11 +1078,11 @@ def run(ctx):
         got = dict(t.header)
         bad = None
         if "keyset" in form and not h0.get("kid"):
-            if got.get("kid") not in kids:
-                bad = "kid of the picked key missing"
+            if wire.get("kid") not in kids:
+                bad = "kid of the picked key missing in the token"
             else:
                 dist["keyset_kid_written"] += 1
-                exp_h["kid"] = got["kid"]
+                exp_h["kid"] = wire["kid"]
         n_added = 0
         for k in added:
             if k not in h0 and k in got:
@@ -1028,6 +1112,26 @@ def run(ctx):
     forms = ["key", "keyset", "callable", "callable-keyset"]
     n_rt = ctx.scale(420, 6000)
     combos = [(t, f) for t in W.transports for f in forms]
+    # every (encode key form, decode key form) pair, token without and with kid, on JWS and JWE transports
+    pair_transports = [W.transports[0], W.transports[7]] if ctx.quick else [W.transports[0], W.transports[3], W.transports[5], W.transports[6], W.transports[7], W.transports[9]]
+    npair = 0
+    for tr_ in pair_transports:
+        tname, kind, base, fam, added = tr_
+        eforms, dforms = W.forms(fam)
+        for ef in eforms:
+            for df in dforms:
+                for with_kid in (False, True):
+                    npair += 1
+                    _, kids = W.key_form(fam, ef)
+                    h = dict(base)
+                    if with_kid:
+                        h["kid"] = W.keys[fam][0].kid if npair % 5 else "not-a-kid-of-the-set"
+                    modes = modes_for(W, kind, base, True)
+                    dist["key_form_pairs"] += 1
+                    bogus = h.get("kid") == "not-a-kid-of-the-set"
+                    one_roundtrip(tr_, ef, h, True, {"sub": "a", "n": npair, "f": 1.5}, npair % 3 == 0, ENCODERS[npair % 3],
+                                  STD_DECODERS[npair % 3], modes[npair % len(modes)], positional=npair % 4 == 0, dform=df,
+                                  header_valid=not (bogus and "keyset" in ef))
     for i in range(n_rt):
         tr_, form = combos[i % len(combos)] if i < 2 * len(combos) else rng.choice(combos)
         tname, kind, base, fam, added = tr_
@@ -1044,7 +1148,9 @@ def run(ctx):
         dec = DECODERS[i % len(DECODERS)] if i < 3 * len(combos) else rng.choice(DECODERS + STD_DECODERS)
         if rng.random() < 0.25:                # values only an encoder with default() can take
             claims[rng.choice(["uid", "amount", "sub"])] = rng.choice([uuid.UUID(int=rng.getrandbits(128)), decimal.Decimal("1.50")])
-        one_roundtrip(tr_, form, header, strict, claims, rng.random() < 0.3, enc, dec, mode, positional=rng.random() < 0.25)
+        _, dforms = W.forms(fam)
+        one_roundtrip(tr_, form, header, strict, claims, rng.random() < 0.3, enc, dec, mode, positional=rng.random() < 0.25,
+                      dform=rng.choice(dforms) if rng.random() < 0.5 else None)
 
     # a few directed claims sets on one cheap JWS and one cheap JWE transport, with every encoder
     hs = W.transports[0]
@@ -1376,8 +1482,21 @@ def replay(path):
             return 1
         if e[0] != "ok":
             return 1
-        d = call(jwt.decode, e[1], key, registry=reg, decoder_cls=dec_cls)
-        print("decode ->", d if d[0] == "err" else (d[1].header, d[1].claims), "expected claims", exp)
+        wire = wire_header(e[1]) or {}
+        dform = r.get("decode_key_form") or r["key_form"]
+        dkey = key
+        if dform != r["key_form"]:
+            ks = W.keys[fam]
+            signer = next((k for k in ks if k.kid == wire.get("kid")), ks[0]) if "keyset" in r["key_form"] else ks[0]
+            dkey = W.decode_key(fam, dform, signer)
+        d = call(jwt.decode, e[1], dkey, registry=reg, decoder_cls=dec_cls)
+        print("decode (key form %s) ->" % dform, d if d[0] == "err" else (d[1].header, d[1].claims), "expected claims", exp,
+              "header in the token", wire)
+        if d[0] == "ok" and (d[1].header != wire or list(d[1].header) != list(wire)):
+            return 1
+        if d[0] == "err" and "keyset" in dform:
+            from joserfc.errors import InvalidKeyIdError
+            return 0 if isinstance(d[1], InvalidKeyIdError) and wire.get("kid") not in [k.kid for k in W.keys[fam]] else 1
         if r.get("decoder_cls") not in (None, 1, 2):
             return 0 if (d[0] == "ok" and isinstance(d[1].claims, dict)) or (d[0] == "err" and isinstance(d[1], InvalidPayloadError)) else 1
         if d[0] != "ok" or exp is None or not json_equal(d[1].claims, exp):
